@@ -44,6 +44,13 @@ async fn async_fn<'a>(deps: &'a impl Named, extra: &'a str) -> (&'a str, &'a str
 #[entrait(Hrtb)]
 fn hrtb<F>(_deps: &impl Named, f: F, v: &[(u8, u8)]) -> u32 where F: for<'x> Fn(&'x (u8, u8)) -> u32 { v.iter().map(f).sum() }
 // module with several functions, generics on different functions
+// where-clause predicates that talk about lifetime parameters of the function (outlives relations):
+// they cannot be written on the trait, where the lifetime is not in scope
+#[entrait(OutlivesNamed)]
+fn outlives_named<'a, 'b, D>(_deps: &D, a: &'a str, _b: &'b str) -> &'a str where D: Named, 'b: 'a { a }
+#[entrait(OutlivesImpl)]
+fn outlives_impl<'a, T>(_deps: &impl Named, x: &'a [T]) -> &'a T where T: 'a + Clone, for<'x> &'x T: Sized { &x[0] }
+
 #[entrait(pub ModTrait)]
 mod m {
     pub fn first<D: super::Named>(deps: &D, n: usize) -> String { deps.name().repeat(n) }
@@ -81,6 +88,8 @@ fn main() {
     same!("hrtb", hrtb(&app, |p| (p.0 + p.1) as u32, &[(1, 2), (3, 4)]), app.hrtb(|p| (p.0 + p.1) as u32, &[(1, 2), (3, 4)]));
     same!("mod.first", m::first(&app, 2), <Impl<App> as ModTrait<u8>>::first(&app, 2));
     same!("mod.second", m::second(&app, &9u8), app.second(&9u8));
-    println!("C03-PROBE cases=12 failed={bad}");
+    same!("outlives_named", outlives_named(&app, "p", "q"), app.outlives_named("p", "q"));
+    same!("outlives_impl", outlives_impl(&app, &[4u8, 5]), app.outlives_impl(&[4u8, 5]));
+    println!("C03-PROBE cases=14 failed={bad}");
     std::process::exit(if bad == 0 { 0 } else { 1 });
 }
